@@ -24,6 +24,7 @@ def newCase (ty : String) (n : Nat) : Option Machine :=
   | "mvreg_raw" => some (Machine.mk' (mvregOps false) n)
   | "glist" => some (Machine.mk' glistOps n)
   | "list" => some (Machine.mk' listOps n)
+  | "list_raw" => some (Machine.mk' listRawOps n)
   | "map_mvreg" => some (Machine.mk' mapMVOps n)
   | "map_orswot" => some (Machine.mk' mapOROps n)
   | "map_map_mvreg" => some (Machine.mk' mapMapMVOps n)
